@@ -66,9 +66,49 @@ def _region(spec, f):
 # ------------------------------------------------------------------ clause: round trip Hz
 
 
+def _other_first(case, f):
+    """Another scale object of the same class with different parameters is queried at the same point first
+    (parameters belong to the object, not to the class or the module)."""
+    o = case.get("other")
+    if not o:
+        return
+    spec = case["scale"]
+    try:
+        if spec["alias"] == "linear":
+            other = build_scale({"alias": "linear", "low_hz": spec["low_hz"] + o, "slope_hz": spec.get("slope_hz", 1.0) * 2.0})
+        elif spec["alias"] == "octave":
+            other = build_scale({"alias": "octave", "low_hz": spec["low_hz"] * (1.0 + o)})
+        else:
+            other = build_scale(spec)
+        s = other.hertz_to_scale(max(f, _lo(spec) * (2.0 + o)))
+        other.scale_to_hertz(s)
+        other.hertz_to_scale(f if spec["alias"] != "octave" else max(f, spec["low_hz"] * (1.0 + o)))
+    except Exception:  # noqa - only the judged object matters here
+        pass
+
+
+def _as_number(case, v):
+    """Whole numbers may arrive as Python ints or numpy scalars."""
+    t = case.get("numtype", "float")
+    if float(v) == int(v) and abs(v) < 2 ** 53:
+        if t == "int":
+            return int(v)
+        if t == "npint":
+            import numpy as np
+
+            return np.int64(int(v))
+    if t == "npfloat":
+        import numpy as np
+
+        return np.float64(v)
+    return v
+
+
 def check_roundtrip_hz(case):
     spec, f = case["scale"], _clamp_f(case["scale"], case["f"])
     sc = build_scale(spec)
+    _other_first(case, f)
+    f = _as_number(case, f)
     s = call("hertz_to_scale", sc.hertz_to_scale, f)
     f2 = call("scale_to_hertz", sc.scale_to_hertz, s)
     require(math.isfinite(float(s)) and math.isfinite(float(f2)), "non-finite value s={} f2={}", s, f2)
@@ -92,6 +132,14 @@ def check_roundtrip_scale(case):
     s = s_lo + u * (s_hi - s_lo)
     if "snap" in case and spec["alias"] == "bark":
         s = case["snap"]["b"] * (1.0 + case["snap"]["e"])
+    if case.get("whole"):
+        # a whole-number scale value inside the image, possibly passed as an int
+        w = math.floor(s) if math.floor(s) >= s_lo else math.ceil(s)
+        if s_lo <= w <= s_hi and not (spec["alias"] == "octave" and w < 0):
+            # (a negative numpy-integer exponent is rejected by numpy itself; octave scale values are only
+            # negative for origins below the 1e-10 Hz floor)
+            s = _as_number(case, float(w))
+    _other_first(case, lo)
     f = call("scale_to_hertz", sc.scale_to_hertz, s)
     s2 = call("hertz_to_scale", sc.hertz_to_scale, f)
     require(math.isfinite(float(f)), "non-finite frequency for scale {!r}", s)
@@ -219,7 +267,9 @@ def check_params(case):
 
 
 def clauses(tier):
-    spec_f = lambda: st.fixed_dictionaries({"scale": _scales(), "f": _freqs()})  # noqa
+    nt = st.sampled_from(["float", "float", "float", "int", "npint", "npfloat"])
+    oth = st.one_of(st.none(), st.none(), st.sampled_from([0.5, 7.0, 100.0]))
+    spec_f = lambda: st.fixed_dictionaries({"scale": _scales(), "f": _freqs(), "numtype": nt, "other": oth})  # noqa
     return [
         Clause(
             "roundtrip_hz", check_roundtrip_hz,
@@ -230,7 +280,9 @@ def clauses(tier):
             "roundtrip_scale", check_roundtrip_scale,
             "scale value s = s(lo) + u (s(1e5) - s(lo)) or within 1e-15..1e-2 of a Bark break; non-trivial = interior point",
             lambda: st.one_of(
-                st.fixed_dictionaries({"scale": _scales(), "u": floats(0.0, 1.0)}),
+                st.fixed_dictionaries({"scale": _scales(), "u": floats(0.0, 1.0), "whole": st.booleans(),
+                                       "numtype": st.sampled_from(["float", "int", "npint", "npfloat"]),
+                                       "other": st.one_of(st.none(), st.none(), st.sampled_from([0.5, 7.0, 100.0]))}),
                 st.fixed_dictionaries(
                     {
                         "scale": st.just({"alias": "bark"}),
